@@ -27,6 +27,12 @@
        <comp>    (x<payload> x<compressed>)   what the real codec makes of a payload
        <hash>es as above but by content: (x<bytes> lo hi)
    ->  ok x<bytes>  |  err
+   encf <rev> <comp t|f> <build> (<packet> ...) (<framing> ...) (<comp2> ...) (<hash> ...)
+       <framing> ((<m> <n>) ... <m>)     one per packet: the block is cut after n bytes, n more bytes, ...; the last
+                                         frame takes what is left; <m> = none|lz4|lz4hc|zstd is the frame's method
+                                         (ignored unless the packet is a compressed block)
+       <comp2>   (<m> x<payload> x<compressed>)   what the real codec of method <m> makes of a payload
+   ->  ok x<bytes>  |  err                         (Recv.encode_packets_fr)
    The hash, the codecs, ColAuto.Infer are oracles looked up in the case line; ColumnType.Conflicts is
    the executable model of model/TypeStr.v; a bound column's own Infer is the identity (the harness
    sends the type string the column reports). *)
@@ -207,6 +213,42 @@ Definition get_htab_c (x : sx) : option htab :=
   | _ => None
   end.
 
+(* ---- framed server (encf) ------------------------------------------------------------------ *)
+Definition get_method2 (x : sx) : option method :=
+  if is_sym x "lz4hc" then Some (MLZ4HC 9) else get_method x.
+Definition mtag (m : method) : N :=
+  match m with MNone => 0 | MLZ4 => 1 | MLZ4HC _ => 2 | MZSTD => 3 end.
+Definition ctab2 := list (N * bytes * bytes).
+Definition comp_of2 (t : ctab2) (m : method) (p : bytes) : option bytes :=
+  match find (fun e => (fst (fst e) =? mtag m) && bytes_eqb (snd (fst e)) p) t with
+  | Some e => Some (snd e)
+  | None => None
+  end.
+Definition get_ctab2 (x : sx) : option ctab2 :=
+  match x with
+  | L l => map_opt (fun e => match e with
+                             | L [m; a; b] => match get_method2 m, get_ab a, get_ab b with
+                                              | Some m, Some a, Some b => Some (mtag m, a, b)
+                                              | _, _, _ => None
+                                              end
+                             | _ => None
+                             end) l
+  | _ => None
+  end.
+Fixpoint get_cuts (l : list sx) : option framing :=
+  match l with
+  | [] => None
+  | [m] => option_map (fun m => ([], m)) (get_method2 m)
+  | L [m; n] :: l' =>
+    match get_method2 m, get_nat n, get_cuts l' with
+    | Some m, Some n, Some (sp, lastm) => Some ((m, n) :: sp, lastm)
+    | _, _, _ => None
+    end
+  | _ => None
+  end.
+Definition get_framing (x : sx) : option framing :=
+  match x with L l => get_cuts l | _ => None end.
+
 (* ---- operations --------------------------------------------------------------------------- *)
 Definition run_recv (xs : list sx) : option (list sx) :=
   match xs with
@@ -236,6 +278,21 @@ Definition run_recv (xs : list sx) : option (list sx) :=
         | None => Some [asym "err"]
         end
       | _, _, _, _, _, _, _ => None
+      end
+    else if is_sym op "encf" then
+      (* here [m] is the packet list and [ps] the framings *)
+      match get_an rv, get_abool cp, get_build bd, m, get_ctab2 ct, get_htab_c ht with
+      | Some rv, Some cp, Some bd, L ps', Some ct, Some ht =>
+        match map_opt get_packet ps', map_opt get_framing ps with
+        | Some ps', Some frs =>
+          let c := {| c_rev := rv ; c_comp := cp ; c_build := bd |} in
+          match encode_packets_fr (H_of ht) (comp_of2 ct) c ps' frs with
+          | Some b => Some [asym "ok"; ab b]
+          | None => Some [asym "err"]
+          end
+        | _, _ => None
+        end
+      | _, _, _, _, _, _ => None
       end
     else None
   | _ => None
